@@ -16,6 +16,7 @@ require (
 	github.com/ethereum/go-ethereum v1.14.11
 	github.com/goatnetwork/goat v0.0.0
 	github.com/supranational/blst v0.3.13
+	golang.org/x/crypto v0.29.0
 	pgregory.net/rapid v1.3.0
 )
 
@@ -142,7 +143,6 @@ require (
 	github.com/tklauser/go-sysconf v0.3.12 // indirect
 	github.com/tklauser/numcpus v0.6.1 // indirect
 	go.uber.org/automaxprocs v1.6.0 // indirect
-	golang.org/x/crypto v0.29.0 // indirect
 	golang.org/x/exp v0.0.0-20240506185415-9bf2ced13842 // indirect
 	golang.org/x/net v0.30.0 // indirect
 	golang.org/x/sync v0.9.0 // indirect
